@@ -80,6 +80,16 @@ func ShrinkingMap.GetOrCreate
   ensures forall k K :: k != key ==> (has(s.m, k) <==> old(has(s.m, k))) && s.m[k] == old(s.m[k])
   ensures unlocked(s.mutex)
 
+-- GetOrCreate with other goroutines around (the map may change whenever the lock is not held): the factory is asked, and
+-- its value stored, only in a write section in which the key has just been found absent - the look under the read lock
+-- says nothing once that lock has been released
+func ShrinkingMap.GetOrCreate#atomic
+  requires s != nil && unlocked(s.mutex) && defaultValueFunc != nil
+  callback defaultValueFunc() (v)
+  modifies everything
+  ghost before call ShrinkingMap.GetOrCreate#defaultValueFunc: assert held(s.mutex) && !has(s.m, key)
+  ensures unlocked(s.mutex)
+
 -- Compute: the value under the key becomes what the (pure) function makes of the current one - the zero value and false
 -- for an absent key - and that is what is returned; nothing else changes
 func ShrinkingMap.Compute
